@@ -209,10 +209,10 @@ def _math_table():
     if _MATH is None:
         import math
         _MATH = {
-            'cos': lambda x: math.cos(x), 'sin': lambda x: math.sin(x), 'exp': lambda x: math.exp(x),
-            'sqrt': lambda x: math.sqrt(x) if x >= 0 else None,
-            'sinc': lambda x: 1.0 if x == 0 else math.sin(math.pi * x) / (math.pi * x),
-            'pow': lambda x, y: math.pow(x, y),
+            'f_cos': lambda x: math.cos(x), 'f_sin': lambda x: math.sin(x), 'f_exp': lambda x: math.exp(x),
+            'f_sqrt': lambda x: math.sqrt(x) if x >= 0 else None,
+            'f_sinc': lambda x: 1.0 if x == 0 else math.sin(math.pi * x) / (math.pi * x),
+            'f_pow': lambda x, y: math.pow(x, y),
         }
     return _MATH
 
@@ -309,7 +309,7 @@ def mentions(e, name):
 
 def strip_sqrt_axioms(pc):
     """sqrt is pinned to a float value in replay; its exact axiom s*s == x would then be unsatisfiable."""
-    return [p for p in pc if not (mentions(p, 'sqrt') and not _is_pin(p))]
+    return [p for p in pc if not (mentions(p, 'f_sqrt') and not _is_pin(p))]
 
 
 def _is_pin(p):
